@@ -31,7 +31,7 @@ pub struct GCfg {
 /// (source chain, message id) pairs; ("ab","c") / ("a","bc") split the same
 /// characters differently between chain and id; the first two share the id on
 /// different chains.
-pub const IDS: [(&str, &str); 9] = [
+pub const IDS: [(&str, &str); 25] = [
     ("avalanche", "0xaa-0"),
     ("ethereum", "0xaa-0"),
     ("ethereum", "0xaa-1"),
@@ -42,6 +42,25 @@ pub const IDS: [(&str, &str); 9] = [
     // two long ids that differ only in their last character (beyond any 32- or 64-byte prefix)
     ("ethereum", "0xaaaaaaaaaaaaaaaaaaaaaaaaaaaaaaaaaaaaaaaaaaaaaaaaaaaaaaaaaaaaaaaaaaaaaaaaaaaaaaaa-1"),
     ("ethereum", "0xaaaaaaaaaaaaaaaaaaaaaaaaaaaaaaaaaaaaaaaaaaaaaaaaaaaaaaaaaaaaaaaaaaaaaaaaaaaaaaaa-2"),
+    // pairs whose (chain, id) differ only in where the boundary falls around a separator character:
+    // any key built as chain + sep + id collides.  Each mate directly follows its partner, so the
+    // "next id" deviation turns an approved message into its mate.
+    ("avalanche", "fuji_0xabc-1"),
+    ("avalanche_fuji", "0xabc-1"),
+    ("a-b", "c"),
+    ("a", "b-c"),
+    ("x:y", "z"),
+    ("x", "y:z"),
+    ("p/q", "r"),
+    ("p", "q/r"),
+    ("m n", "o"),
+    ("m", "n o"),
+    ("u|v", "w"),
+    ("u", "v|w"),
+    ("s.t", "k"),
+    ("s", "t.k"),
+    ("h\0i", "j"),
+    ("h", "i\0j"),
 ];
 pub const SRCS: [&str; 3] = [
     "0x4EFE356BEDeCC817cb89B4E9b796dB8bC188DC59",
